@@ -130,7 +130,7 @@ def fault_plan(sim, drv, cmds, tier, chip_info):
                     plan.append({"at": i, "stage": "chip", "kind": "status", "arg": wd})
             else:
                 if tier == "quick":
-                    codes = sorted(set(PN53X_DOCUMENTED + [0x00, 0x40, 0x41, 0x80, 0x7F, 0xFF] +
+                    codes = sorted(set(PN53X_DOCUMENTED + [0x00, 0x40, 0x41, 0x80, 0x81, 0xC1, 0x7F, 0xFF] +
                                        [sim.choose("status", 256) for _ in range(32)]))
                 else:
                     codes = list(range(256))
@@ -268,8 +268,10 @@ def judge(sim, nfc, r, f, desc, cmds, family):
         eff = s & 0x3F if code in (0x40, 0x86) else s
         if eff == 0:
             want = "data"
-        elif s == 0x01 and role == "initiator":
-            want = "timeout"
+        elif (s == 0x01 or (code == 0x40 and eff == 0x01)) and role == "initiator":
+            want = "timeout"        # InDataExchange: bits 7 and 6 of the status byte are NAD / MI flags, not error code
+        elif code == 0x40 and s != eff and eff in PN53X_DOCUMENTED and role == "initiator":
+            want = "other"
         elif s in RF_OFF_AS_TARGET and role == "target":
             want = "brokenlink"
         elif s in PN53X_DOCUMENTED and s != 0x01:
